@@ -9,38 +9,49 @@ EXTENDS IncSession, Batch
 
 IsTable(o) == o.kind = "table"
 
-\* one call e = [call, out, pool_after, t_after] of a recorded session on table t with the pool p0 as it was
+\* one call e = [call, out, pool_after, t_after, opd_after] of a recorded session on table t with the pool p0 as it was
 \* BEFORE THE FIRST call: nothing of the caller's may have changed, and the outcome is judged against the
-\* ORIGINAL contents of the filters (calls outside the statement's domain are only held to the first two)
-CallClause(t, p0, e) ==
+\* ORIGINAL contents of the filters (calls outside the statement's domain are only held to that).
+\* opd = the table the call was made on: t, or (call.on = "last") the table the previous call returned, prev = that
+\* previous outcome as it was logged then - it must still read the same after this call
+CallClause(t, opd, prev, p0, e) ==
     LET cl == e.call  out == e.out  cd == CondOf(p0, cl) IN
     IF e.t_after # t THEN "operand_changed"
+    ELSE IF cl.on = "last" /\ e.opd_after # prev THEN "operand_changed"
     ELSE IF e.pool_after # p0 THEN "filter_argument_changed"
-    ELSE IF ~InDomain(t, p0, cl) THEN ""
-    ELSE IF out \in MixedRaises(t, cl, cd) THEN ""          \* named deviation MixedEmptied
+    ELSE IF ~InDomain(opd, p0, cl) THEN ""
+    ELSE IF out \in MixedRaises(opd, cl, cd) THEN ""          \* named deviation MixedEmptied
     ELSE CASE cl.op = "inc" ->
                 IF ~IsTable(out) THEN "inc_not_a_table"
-                ELSE IF Range(out.cols) # ColSet(t) THEN "inc_columns"
-                ELSE IF out.rows # IncC(t, cd).rows THEN "inc_rows" ELSE ""
+                ELSE IF Range(out.cols) # ColSet(opd) THEN "inc_columns"
+                ELSE IF out.rows # IncC(opd, cd).rows THEN "inc_rows" ELSE ""
            [] cl.op = "exc" ->
                 IF ~IsTable(out) THEN "exc_not_a_table"
-                ELSE IF Range(out.cols) # ColSet(t) THEN "exc_columns"
-                ELSE IF out.rows \notin {x.rows : x \in ExcReadings(t, cd)} THEN "exc_rows" ELSE ""
+                ELSE IF Range(out.cols) # ColSet(opd) THEN "exc_columns"
+                ELSE IF out.rows \notin {x.rows : x \in ExcReadings(opd, cd)} THEN "exc_rows" ELSE ""
            [] cl.op = "find" ->
-                LET want == FindC(t, cl.col, cd) IN
+                LET want == FindC(opd, cl.col, cd) IN
                 IF out.kind = "exc" THEN (IF RaisesOut(out.cls) \in want THEN "" ELSE "find_raised")
                 ELSE IF out.kind = "val" /\ [kind |-> "val", v |-> out.v] \in want THEN "" ELSE "find_value"
            [] cl.op = "one" ->
-                LET sel == OneSel(t, p0, cl) IN
+                LET sel == OneSel(opd, p0, cl) IN
                 IF Len(sel) = 0 THEN (IF out.kind = "none" THEN "" ELSE "one_or_none_empty")
                 ELSE IF Len(sel) = 1 THEN (IF out.kind = "row" /\ out.row = sel[1] THEN "" ELSE "one_or_none_single")
                 ELSE IF out.kind = "exc" /\ out.cls = "ValueError" THEN "" ELSE "one_or_none_multiple"
            [] OTHER -> "unknown_op"
+\* the k-th call of a recorded history; a call on the previous result needs that result to be a table
+KthClause(o, k) ==
+    LET e == o.calls[k] IN
+    IF e.call.on = "last"
+    THEN (IF k > 1 /\ IsTable(o.calls[k - 1].out)
+          THEN CallClause(o.t, TableOf(o.calls[k - 1].out, o.t.cols), o.calls[k - 1].out, o.pool, e)
+          ELSE "chained_on_nothing")
+    ELSE CallClause(o.t, o.t, e.out, o.pool, e)
 \* the first call of the history the specification does not explain, as "<index>:<clause>"
 SessionVerdict(o) ==
-    LET bad == {k \in 1..Len(o.calls) : CallClause(o.t, o.pool, o.calls[k]) # ""} IN
+    LET bad == {k \in 1..Len(o.calls) : KthClause(o, k) # ""} IN
     IF bad = {} THEN ""
-    ELSE LET k == CHOOSE k \in bad : \A j \in bad : k <= j IN ToString(k) \o ":" \o CallClause(o.t, o.pool, o.calls[k])
+    ELSE LET k == CHOOSE k \in bad : \A j \in bad : k <= j IN ToString(k) \o ":" \o KthClause(o, k)
 
 Verdict(o) ==
     IF o.op = "session" THEN SessionVerdict(o) ELSE
